@@ -29,6 +29,8 @@ type ImportLine struct {
 	Role string `json:"role"`
 }
 
+var g_trailing = []string{" // NOSONAR", " // keep", "  /* generated */", " "}
+
 var importPkgs = []string{"java.util", "java.io", "org.ext.model", "org.ext.svc", "com.lib", "com.lib.sub"}
 var importNames = []string{"Widget", "Gadget", "Sprocket", "Lever", "Valve", "Gear", "Bolt", "Rivet", "Flange", "Piston", "Crank", "Shaft", "Pulley", "Spring", "Washer", "Gasket", "Écran", "Ωmega", "Ünit", "Ñandu"}
 var roles = []string{"field", "param", "local", "generic", "annotation", "new", "static-receiver", "catch", "throws", "extends", "implements", "return",
@@ -198,6 +200,9 @@ func genImportFile(t *tape.Tape, cls string, pkg string) ImportFile {
 			s += ".*"
 		}
 		s += ";"
+		if t.Bool(1, 10) {
+			s += g_trailing[t.Pick(len(g_trailing))] // something after the semicolon on the import's line
+		}
 		add(s)
 		out.Imports = append(out.Imports, ImportLine{Line: len(lines), Text: s, Simple: im.simple, Wildcard: im.wildcard, Static: im.stat, Role: im.role})
 	}
